@@ -57,6 +57,7 @@ THOROUGH = {
     "invalid": [0.0, -1.0, -0.125],
 }
 NBLOCKS = {"quick": 42, "thorough": 64}
+SCALES = {"quick": [2.0 ** -10], "thorough": [2.0 ** -10, 2.0 ** 10, 2.0 ** -20]}
 
 
 def lattice(tier):
@@ -71,6 +72,7 @@ def bounds(tier):
     return {
         "clip_start": lat["start"], "clip_length": lat["length"], "duration": lat["duration"],
         "hop": lat["duration"] + [None], "include_incomplete": [False, True], "non_positive": lat["invalid"],
+        "scales": [1.0] + SCALES[tier],
         "valid_cases": nv, "invalid_cases": ninv, "recording_duration": 100.0,
     }
 
@@ -107,6 +109,10 @@ def cases_of(tier, s, L):
         for h in durs + [None]:
             for incl in (False, True):
                 yield {"s": s, "L": L, "d": d, "h": h, "incl": incl}
+                # the same case on a scaled lattice (powers of two keep every operation exact): millisecond-sized
+                # windows, where bounds differ only in the third decimal, and kilosecond-sized ones
+                for sc in SCALES[tier]:
+                    yield {"s": s * sc, "L": L * sc, "d": d * sc, "h": None if h is None else h * sc, "incl": incl, "scale": sc}
     for incl in (False, True):
         for d in bad:
             for h in [None] + durs + bad:
